@@ -272,7 +272,9 @@ func runC18(sc *c18Scenario) *Violation {
 		// keep-alive
 		switch {
 		case sc.PingFreqMS == 20:
-			ok := conn.WaitWritten(func(w string) bool { return strings.Count(w, "\r\nPING :")+boolInt(strings.HasPrefix(w, "PING :")) >= 3 }, 30*time.Second)
+			ok := conn.WaitWritten(func(w string) bool {
+				return strings.Count(w, "\r\nPING :")+boolInt(strings.HasPrefix(w, "PING :")) >= 3
+			}, 30*time.Second)
 			if !ok {
 				return violationf("C18", "PingFreq=20ms: fewer than 3 client PINGs in 30 s")
 			}
